@@ -25,6 +25,9 @@ func ParseMetadata(rawsdp string, video *codec.VideoMeta, audio *codec.AudioMeta
 	}
 
 	for _, media := range sdp.Media {
+		if len(media.Format) == 0 { // 没有格式描述的媒体行，忽略
+			continue
+		}
 		switch media.Type {
 		case "video":
 			video.Codec = media.Format[0].Name
